@@ -26,4 +26,5 @@ def run(idx, rep, tier):
     purity.r_pureargs(idx, rep, ["distance3d.colliders", "distance3d.geometry", "distance3d.mesh", "distance3d.utils"], floor=20)
     misc2.r_adjacency(idx, rep)
     misc2.r_dupcond(idx, rep, [m.name for m in idx.lib_modules()], floor=3)
+    misc2.r_shortcuts(idx, rep)
     unpack.r_unpack(idx, rep, floor=2)
